@@ -178,6 +178,16 @@ CHECKS["C08"] = dict(
     note="Release profile. Signatures are (kind, in-repo file:line), so a new panic site is a new violation. valgrind runs with --undef-value-errors=no; Miri/ASan are not part of the registered check (see DESIGN §7).",
     ref="DESIGN.md §6 P-C08")
 
+CHECKS["C01"] = dict(
+    technique="runtime monitoring: reference-model monitor (independent interpreter of the documented semantics) over exhaustive and random programs",
+    text="Every single-clause program over 26 query shapes x some/all x 9 unary and 6 binary operators x all polarity spellings x 14 literals x 3 documents "
+         "(~31k, exhaustive in both tiers) and random core-language programs (queries with * [*] [n] [filter], blocks, when guards, named references, let "
+         "variables incl. `some` bindings, CNF, type blocks) on random documents are evaluated by the real evaluator and by gvlib/refint.py, a ~400-line "
+         "interpreter written from the documentation with a different structure (result set -> truth values -> aggregation; no memo, no records); per-rule "
+         "and file statuses must be equal and evaluation errors must occur exactly where the reference says the semantics is undefined.",
+    note="The reference abstains (UNSPEC, counted; <10% of cases) on the zones listed in DESIGN §5.3; query right-hand sides, functions and parameterised rules are left to C13/C15/C18.",
+    ref="DESIGN.md §5, §6 P-C01")
+
 PENDING = {}
 
 
